@@ -56,6 +56,6 @@ func init() {
 		Assumptions: []string{"strings.Reader and strconv.ParseInt are executed from their SSA bodies; fmt.Errorf is opaque (returns some non-nil error)", archNote},
 		LevelText:   "Bounded symbolic model checking: decimal literals with symbolic digits are proved to be stored as the exact value rounded once; fully symbolic short strings are proved to be handled totally (no panic, error with nil result or canonical value) and accepted exactly according to the documented grammar.",
 		LevelNote:   trusted,
-		Timeout:     map[string]time.Duration{"quick": 150 * time.Second, "thorough": 300 * time.Second},
+		Timeout:     map[string]time.Duration{"quick": 300 * time.Second, "thorough": 300 * time.Second},
 	})
 }
